@@ -356,12 +356,12 @@ theorem dt2_wordB_iff (t : Str) : dt2WordB t = true ↔ FloatWord t := by
   simp only [dt2WordB, FloatWord, Bool.or_eq_true, beq_iff_eq, or_assoc]
 
 theorem dt2_floatOk_eq0 (s : Str) :
-    floatOk s = (if dt2WordB (dt2Unsign (strip s)) = true then true else floatBody (dt2Unsign (strip s))) := rfl
+    floatOk s = (if dt2WordB (dt2Unsign (stripInt s)) = true then true else floatBody (dt2Unsign (stripInt s))) := rfl
 
 theorem dt2_floatOk_eq (s : Str) :
-    floatOk s = (dt2WordB (dt2Unsign (strip s)) || floatBody (dt2Unsign (strip s))) := by
+    floatOk s = (dt2WordB (dt2Unsign (stripInt s)) || floatBody (dt2Unsign (stripInt s))) := by
   rw [dt2_floatOk_eq0]
-  cases dt2WordB (dt2Unsign (strip s)) <;> rfl
+  cases dt2WordB (dt2Unsign (stripInt s)) <;> rfl
 
 theorem dt2_unsign_solid (sg t : Str) (hs : IsSign sg) (ht : dt2Solid t) : dt2Unsign (sg ++ t) = t := by
   obtain ⟨⟨c, r, rfl, _, h2, h3⟩, _⟩ := ht
@@ -389,18 +389,18 @@ theorem dt2_floatOk_iff (s : Str) : floatOk s = true ↔ FloatLit s := by
   rw [dt2_floatOk_eq, Bool.or_eq_true, dt2_wordB_iff, dt2_floatBody_iff]
   constructor
   · intro h
-    obtain ⟨pre, post, hs, hpre, hpost⟩ := dt2_strip_decomp s
-    obtain ⟨sg, hsg, hu⟩ := dt2_unsign_decomp (strip s)
-    refine ⟨pre, sg, dt2Unsign (strip s), post, ?_, hpre, hpost, hsg, h⟩
+    obtain ⟨pre, post, hs, hpre, hpost⟩ := dt2_stripInt_decomp s
+    obtain ⟨sg, hsg, hu⟩ := dt2_unsign_decomp (stripInt s)
+    refine ⟨pre, sg, dt2Unsign (stripInt s), post, ?_, hpre, hpost, hsg, h⟩
     rw [List.append_assoc pre, ← hu]; exact hs
   · rintro ⟨pre, sg, t, post, rfl, hpre, hpost, hsg, ht⟩
     have hsolid : dt2Solid t := by
       rcases ht with h | h
       · exact dt2_floatWord_solid t h
       · exact dt2_floatNum_solid t h
-    have hstrip : strip (pre ++ sg ++ t ++ post) = sg ++ t := by
+    have hstrip : stripInt (pre ++ sg ++ t ++ post) = sg ++ t := by
       rw [List.append_assoc pre sg t]
-      exact dt2_strip_mid pre (sg ++ t) post hpre hpost (Or.inr (dt2_signed_solid_ends sg t hsg hsolid))
+      exact dt2_stripInt_mid' pre (sg ++ t) post hpre hpost (dt2_signed_solid_ends sg t hsg hsolid)
     rw [hstrip, dt2_unsign_solid sg t hsg hsolid]
     exact ht
 
